@@ -154,7 +154,20 @@ class Interp(object):
           val[internal.name] = ("resource", var)
         else:
           val[internal.name] = ext.numpy()
+    # only the operations the outputs depend on are interpreted (dead sub-graphs, e.g. batch statistics that an inference
+    # path computes and discards, and state updates without data outputs are skipped; the latter are recorded)
+    needed, stack = set(), [t.op for t in g.outputs]
+    while stack:
+      o = stack.pop()
+      if o.name in needed:
+        continue
+      needed.add(o.name)
+      stack.extend(t.op for t in o.inputs)
     for op in g.get_operations():
+      if op.name not in needed:
+        if op.type in ("AssignAddVariableOp", "AssignVariableOp", "AssignSubVariableOp"):
+          self.effects = getattr(self, "effects", []) + [op.name]
+        continue
       if op.type == "Placeholder":
         if op.outputs[0].name not in val:
           raise Unsupported("unbound placeholder " + op.name)
@@ -202,7 +215,32 @@ class Interp(object):
       outs, _ = self.run(None, list(ins), var_syms, graph=fg, capture_vals=[])
       return list(outs)
     if t in ("StatelessIf", "If"):
-      raise Unsupported(t)
+      pred = ins[0]
+      if is_sym(pred):
+        raise Unsupported(t + " on a symbolic predicate")
+      from tensorflow.python.framework import function_def_to_graph as f2g
+      lib = {f.signature.name: f for f in g.as_graph_def().library.function}
+      br = op.get_attr("then_branch" if bool(np.asarray(pred)) else "else_branch")
+      fg = f2g.function_def_to_graph(lib[br.name])
+      outs, _ = self.run(None, list(ins[1:]), var_syms, graph=fg, capture_vals=[])
+      return list(outs)
+    if t in ("AssignAddVariableOp", "AssignVariableOp", "AssignSubVariableOp") and not op.outputs:
+      # state updates have no data output; they are outside what the traced outputs denote (recorded, not modelled)
+      self.effects = getattr(self, "effects", []) + [op.name]
+      return []
+    if t == "Identity" and "VFUF_" in op.name:
+      # marker placed by a harness: an uninterpreted tensor function (real relaxation only)
+      tag = op.name.split("VFUF_")[1].split("/")[0].split(":")[0]
+      x = self.lift(ins[0])
+      args = list(x.reshape(-1)) if x.ndim else [x[()]]
+      out = np.empty(x.shape, dtype=object)
+      of = out.reshape(-1) if x.ndim else out
+      for i in range(len(args)):
+        if x.ndim:
+          of[i] = b.uf(tag, i, args)
+        else:
+          out[()] = b.uf(tag, i, args)
+      return [out]
     if not any(is_sym(i) for i in ins):
       if t in PASS_THROUGH:
         return list(ins)
@@ -246,6 +284,7 @@ class Interp(object):
     if t == "Floor": return [ew(b.floor, *ins)]
     if t == "Ceil": return [ew(b.ceil, *ins)]
     if t == "Sqrt": return [ew(b.sqrt, *ins)]
+    if t == "Rsqrt": return [ew(b.rsqrt, *ins)]
     if t in ("TruncateMod", "FloorMod", "Mod"):
       # exact when the divisor is a constant power of two: x - trunc|floor(x / y) * y involves no rounding
       y = ins[1]
@@ -254,6 +293,7 @@ class Interp(object):
       rd = b.trunc if t == "TruncateMod" else b.floor
       return [ew(lambda x, yy: b.sub(x, b.mul(rd(b.div(x, yy)), yy)), *ins)]
     if t == "Square": return [ew(lambda a: b.mul(a, a), *ins)]
+    if t == "SquaredDifference": return [ew(lambda x, y: b.mul(b.sub(x, y), b.sub(x, y)), *ins)]
     if t == "Maximum": return [ew(b.fmax, *ins)]
     if t == "Minimum": return [ew(b.fmin, *ins)]
     if t == "Sign": return [ew(b.sign, *ins)]
